@@ -2,6 +2,7 @@ package stub
 
 import (
 	"context"
+	"errors"
 
 	"github.com/prometheus/prometheus/model/labels"
 
@@ -136,6 +137,9 @@ func Labels(kv ...string) labels.Labels {
 	}
 	return l
 }
+
+// ErrInjected is the error a stub child returns when told to fail.
+var ErrInjected = errors.New("injected operator failure")
 
 // LabelsCap: like Labels, but the slice has spare capacity (as label sets built by
 // appending have): an append by the engine would write into the owner's backing array.
